@@ -56,14 +56,14 @@ Section Iter.
     else scan_loop fuel textstart textstart.
 
   (* regexp.go:80-99 run: negative textstart = "beginning" for the direction *)
-  Definition run (fuel : nat) (textstart prevlen : Z) : res (option mt) :=
+  Definition re_run (fuel : nat) (textstart prevlen : Z) : res (option mt) :=
     let textstart := if textstart <? 0 then (if rtl then len else 0) else textstart in
     scan fuel textstart prevlen.
 
   (* regexp.go:251-254, 275-278, 424-430 *)
-  Definition find_runes_match (fuel : nat) : res (option mt) := run fuel (-1) (-1).
-  Definition find_runes_match_starting_at (fuel : nat) (startAt : Z) : res (option mt) := run fuel startAt (-1).
-  Definition find_next_match (fuel : nat) (m : mt) : res (option mt) := run fuel (m_textpos m) (m_length m).
+  Definition find_runes_match (fuel : nat) : res (option mt) := re_run fuel (-1) (-1).
+  Definition find_runes_match_starting_at (fuel : nat) (startAt : Z) : res (option mt) := re_run fuel startAt (-1).
+  Definition find_next_match (fuel : nat) (m : mt) : res (option mt) := re_run fuel (m_textpos m) (m_length m).
 
   (* An independent search: candidate positions from pos on, \G bound to textstart, no previous match. *)
   Definition search_from (fuel : nat) (textstart pos : Z) : res (option mt) := scan_loop fuel textstart pos.
@@ -130,7 +130,7 @@ Section Iter.
   Definition find_string_match (sfuel : nat) (cand : option Z) : res (option mt) :=
     match cand with
     | None => Ok None
-    | Some r => run sfuel (if r <? 0 then 0 else r) (-1)
+    | Some r => re_run sfuel (if r <? 0 then 0 else r) (-1)
     end.
 
   (* ------------------------------------------------------------------ *)
